@@ -97,11 +97,13 @@ def _wait_pid(pid, timeout):
 
 
 def _kill_and_reap(pid, group=False):
-    try:
-        if group:
+    if group:
+        try:
             os.killpg(pid, signal.SIGKILL)
-        else:
-            os.kill(pid, signal.SIGKILL)
+        except (ProcessLookupError, PermissionError):
+            pass
+    try:
+        os.kill(pid, signal.SIGKILL)  # also when the group did not exist (yet): never block on a live child
     except (ProcessLookupError, PermissionError):
         pass
     try:
